@@ -35,6 +35,8 @@ def render(ops):
                 lines.append('OPEN "%s" FOR %s AS #%d' % (fname(o["name"]), o["mode"].upper(), o["n"]))
         elif k == "print":
             lines.append("PRINT #%d, %s" % (o["n"], q(o["text"])))
+        elif k == "printsemi":
+            lines.append("PRINT #%d, %s;" % (o["n"], q(o["text"])))
         elif k == "lineinput":
             lines += ["LINE INPUT #%d, L$" % o["n"], 'PRINT "[" + L$ + "]"']
         elif k == "input":
@@ -56,15 +58,15 @@ def render(ops):
         elif k == "clineinput":
             lines += ["LINE INPUT L$", 'PRINT "[" + L$ + "]"']
         elif k == "field":
-            lines.append("FIELD #%d, " % o["n"] + ", ".join("%d AS F%d%d$" % (w, o["n"], i + 1) for i, w in enumerate(o["ws"])))
+            lines.append("FIELD #%d, " % o["n"] + ", ".join("%d AS %s%d%d$" % (w, "FGH"[o.get("g", 0)], o["n"], i + 1) for i, w in enumerate(o["ws"])))
         elif k == "lset":
-            lines.append("LSET F%d%d$ = %s" % (o["n"], o["i"], q(o["text"])))
+            lines.append("LSET %s%d%d$ = %s" % ("FGH"[o.get("g", 0)], o["n"], o["i"], q(o["text"])))
         elif k == "put":
             lines.append("PUT #%d, %d" % (o["n"], o["r"]))
         elif k == "get":
             lines.append("GET #%d, %d" % (o["n"], o["r"]))
         elif k == "show":
-            lines.append('PRINT "[" + F%d%d$ + "]"' % (o["n"], o["i"]))
+            lines.append('PRINT "[" + %s%d%d$ + "]"' % ("FGH"[o.get("g", 0)], o["n"], o["i"]))
         else:
             raise ValueError(k)
     return "\r\n".join(lines) + "\r\n"
@@ -158,7 +160,59 @@ def gen(tier, rng):
                     ops.append(O("show", n=1, i=i + 1))
             ops.append(O("close", n=1))
             hs.append(("random", ops, ""))
+    # (d2) FIELD lists that describe only the beginning of the record; record numbers far apart
+    for ws, ln in (([4, 4], 16), ([3], 8), ([2, 5], 9), ([1, 1, 1], 7)):
+        for _ in range(120 if tier == "thorough" else 20):
+            ops = [O("open", n=1, name="C", mode="random", len=ln), O("field", n=1, ws=ws)]
+            written = []
+            for _ in range(rng.randint(2, 6)):
+                r = rng.randint(1, 6)
+                for i in range(len(ws)):
+                    ops.append(O("lset", n=1, i=i + 1, text=S(rng.choice(["A", "BCD", "longer text", "Zz", "qrstu"]))))
+                ops.append(O("put", n=1, r=r))
+                written.append(r)
+            for r in sorted(set(written)) + [rng.randint(1, 6)]:
+                ops.append(O("get", n=1, r=r))
+                for i in range(len(ws)):
+                    ops.append(O("show", n=1, i=i + 1))
+            ops.append(O("close", n=1))
+            hs.append(("random-short", ops, ""))
+    # (d3) several FIELD statements for one file: every list describes the record from its first byte
+    for first, second, ln in (([8], [4, 4], 8), ([4, 4], [8], 8), ([2, 6], [5, 3], 8), ([8], [4, 4], 16), ([3, 3], [6], 6), ([6], [2, 2, 2], 6)):
+        for _ in range(40 if tier == "thorough" else 8):
+            # records are written through ONE list, read back through two
+            ops = [O("open", n=1, name="C", mode="random", len=ln), O("field", n=1, ws=first, g=1)]
+            nrec = rng.randint(1, 3)
+            for r in range(1, nrec + 1):
+                for i in range(len(first)):
+                    ops.append(O("lset", n=1, i=i + 1, g=1, text=S(rng.choice(["ABCDEFGH", "ijklmnop", "12345678", "Qq"]) )))
+                ops.append(O("put", n=1, r=r))
+            ops.append(O("field", n=1, ws=second, g=0))
+            for r in rng.sample(range(1, nrec + 1), nrec):
+                ops.append(O("get", n=1, r=r))
+                for i in range(len(first)):
+                    ops.append(O("show", n=1, i=i + 1, g=1, l=1))
+                for i in range(len(second)):
+                    ops.append(O("show", n=1, i=i + 1, g=0, l=0))
+            ops.append(O("close", n=1))
+            hs.append(("random-two-lists", ops, ""))
+    # (a2) text that does not end in a line end; blanks in front of fields and at the very end of the file
+    for parts in (["one,  "], ["  lead", "x"], ["a,  b", " c"], ["   "], ["p, "], ["w", " "], ["k", ""], ["m,n", "  "]):
+        for last_semi in (True, False):
+            w = [O("open", n=1, name="A", mode="output")]
+            for j, t in enumerate(parts):
+                w.append(O("printsemi" if (last_semi and j == len(parts) - 1) else "print", n=1, text=S(t)))
+            w.append(O("close", n=1))
+            for reader in ("input", "lineinput", "mixed"):
+                r = [O("open", n=2, name="A", mode="input"), O("eof", n=2)]
+                for j in range(sum(len(t.split(",")) for t in parts) + 1):
+                    kind = reader if reader != "mixed" else rng.choice(["lineinput", "input"])
+                    r += [O(kind, n=2), O("eof", n=2)]
+                hs.append(("readback-blanks", w + r, ""))
     # (e) the console forms split exactly as the file forms do
+    for data in ("one,  ", "  lead\r\nx", "a,  b\r\n c\r\n", "p, "):
+        nf = sum(len(t.split(",")) for t in data.replace("\r\n", "\n").split("\n") if t or True)
+        hs.append(("console-blanks", [O("cinput") for _ in range(nf)], data))
     for texts in itertools.product(TEXTS[:6], repeat=2):
         data = "\r\n".join(texts) + "\r\n"
         nf = sum(len(t.split(",")) for t in texts)
@@ -206,7 +260,7 @@ def run(tier, replay):
         so = resp.get("stdout")
         out = list(so.encode("utf-8")) if isinstance(so, str) else so.get("bytes", [])
         files = [{"name": n, "bytes": b} for n, b in sorted(resp.get("files_after", {}).items())]
-        if fam == "random":
+        if fam.startswith("random"):
             # the pad character of LSET / of records beyond the end is not fixed by the property: NUL counts as blank
             out = [32 if c == 0 else c for c in out]
             files = [{"name": x["name"], "bytes": [32 if c == 0 else c for c in x["bytes"]]} for x in files]
